@@ -1,17 +1,42 @@
-(* C11: the concrete model of tex.Buffer (storage, read offset, last-read kind, capacity, the five grow paths) *)
+(* C11: the concrete model of tex.Buffer (tex/buffer.go): storage, read offset, last-read kind, capacity, the five
+   grow paths, and every public operation, branch for branch.  Panics are first-class outcomes (status 900) and the
+   state a recovered panic leaves behind is modelled too, because callers (and the harness) keep using the buffer. *)
 From Coq Require Import ZArith List Lia Bool Arith.
 Import ListNotations.
+Require Import ReWrite C11_Utf8.
 
+(* bytes = b.buf[0:len]; off = b.off; lastr = b.lastRead (-1 opRead, 0 opInvalid, 1..4 opReadRuneN);
+   cap = cap(b.buf); isnil = (b.buf == nil) *)
 Record buf := { bytes : list Z; off : nat; lastr : Z; cap : nat; isnil : bool }.
-Inductive op := Write (p : list Z) | WriteByte (c : Z) | Read (n : nat) | ReadByte | Next (n : Z)
-              | UnreadByte | Truncate (n : Z) | Reset | Grow (n : Z).
-(* observable result of one call: a tag and data; 900 = panic *)
+
+Inductive op :=
+  | Write (p : list Z) | WriteString (p : list Z) | WriteByte (c : Z) | WriteRune (r : Z)
+  | Read (n : nat) | ReadByte | ReadRune | UnreadByte | UnreadRune | Next (n : Z)
+  | Truncate (n : Z) | Reset | Grow (n : Z)
+  | ReadFrom (script : list (list Z * Z))   (* what the reader answers call by call: (bytes, e); e = 0 nil, 1 io.EOF,
+                                               -1 a negative count, other = the caller's error number e; after the
+                                               script the reader answers (0, io.EOF) *)
+  | WriteTo (m : Z) (e : Z)                 (* what the writer answers: count m and error number e (0 = nil) *)
+  | OLen | OBytes | OString | OCap          (* queries *)
+  | ReWrite (pos : Z) (p : list Z).
+
+(* observable result of one call: status and data.
+   status: 0 ok, 900 panic, 901 io.EOF, 902 the Unread* error, 903 io.ErrShortWrite, 1000+e the caller's error e *)
 Definition obs := (Z * list Z)%type.
+Definition st_ok : Z := 0.
+Definition st_panic : Z := 900.
+Definition st_eof : Z := 901.
+Definition st_unread : Z := 902.
+Definition st_short : Z := 903.
+Definition st_user (e : Z) : Z := (1000 + e)%Z.
+Definition zn (n : nat) : Z := Z.of_nat n.
 
 Definition blen (b : buf) := (length (bytes b) - off b)%nat.
 Definition live (b : buf) := skipn (off b) (bytes b).
 Definition reset (b : buf) := {| bytes := []; off := 0; lastr := 0%Z; cap := cap b; isnil := isnil b |}.
 Definition zeros (n : nat) := repeat 0%Z n.
+Definition min_read : nat := 512.
+Definition small_buffer_size : nat := 64.
 
 (* grow(n): returns the buffer with len = m + n and the write index m *)
 Definition grow (b0 : buf) (n : nat) : buf * nat :=
@@ -20,8 +45,8 @@ Definition grow (b0 : buf) (n : nat) : buf * nat :=
   let l := length (bytes b) in
   if Nat.leb n (cap b - l) then                                                    (* reslice *)
     ({| bytes := bytes b ++ zeros n; off := off b; lastr := lastr b; cap := cap b; isnil := isnil b |}, l)
-  else if isnil b && Nat.leb n 64 then                                              (* small first allocation *)
-    ({| bytes := zeros n; off := 0; lastr := lastr b; cap := 64; isnil := false |}, O)
+  else if isnil b && Nat.leb n small_buffer_size then                               (* small first allocation *)
+    ({| bytes := zeros n; off := 0; lastr := lastr b; cap := small_buffer_size; isnil := false |}, O)
   else
     let c := cap b in
     if Nat.leb n (c / 2 - m) then                                                   (* slide down *)
@@ -37,54 +62,139 @@ Definition grow_for_write (b : buf) (n : nat) : buf * nat :=
   then ({| bytes := bytes b ++ zeros n; off := off b; lastr := lastr b; cap := cap b; isnil := isnil b |}, l)
   else grow b n.
 
-Definition write_at (b : buf) (m : nat) (p : list Z) : buf :=
-  {| bytes := firstn m (bytes b) ++ p; off := off b; lastr := lastr b; cap := cap b; isnil := isnil b |}.
+Definition set_bytes (b : buf) (l : list Z) := {| bytes := l; off := off b; lastr := lastr b; cap := cap b; isnil := isnil b |}.
+Definition write_at (b : buf) (m : nat) (p : list Z) : buf := set_bytes b (firstn m (bytes b) ++ p).
 Definition set_last (b : buf) (v : Z) := {| bytes := bytes b; off := off b; lastr := v; cap := cap b; isnil := isnil b |}.
 Definition set_off (b : buf) (o : nat) (v : Z) := {| bytes := bytes b; off := o; lastr := v; cap := cap b; isnil := isnil b |}.
 
-Definition tag (z : Z) (d : list Z) : obs := (z, d).
-Definition step (b : buf) (o : op) : buf * obs :=
+(* the loop of ReadFrom: grow(MinRead), offer buf[i:cap] to the reader, keep what it delivered *)
+Fixpoint read_from (b : buf) (sc : list (list Z * Z)) (n : Z) : buf * obs :=
+  let '(b1, i) := grow b min_read in
+  let b2 := set_bytes b1 (firstn i (bytes b1)) in
+  match sc with
+  | [] => (b2, (st_ok, [n]))                                          (* (0, io.EOF): return n, nil *)
+  | (chunk, e) :: sc' =>
+    if (e =? -1)%Z then (b2, (st_panic, []))                          (* m < 0: panic(errNegativeRead) *)
+    else
+      let k := Nat.min (length chunk) (cap b2 - i) in                 (* the reader copies into buf[i:cap] *)
+      let b3 := set_bytes b2 (bytes b2 ++ firstn k chunk) in
+      let n' := (n + zn k)%Z in
+      if (e =? 1)%Z then (b3, (st_ok, [n']))
+      else if (e =? 0)%Z then read_from b3 sc' n'
+      else (b3, (st_user e, [n']))
+  end.
+
+(* WriteRune: a rune the test classifies as a single byte goes through WriteByte(byte(r)) *)
+Definition write_rune (is_byte : Z -> bool) (b : buf) (r : Z) : buf * obs :=
+  if is_byte r then
+    let '(b1, m) := grow_for_write (set_last b 0%Z) 1 in (write_at b1 m [(r mod 256)%Z], (st_ok, [1%Z]))
+  else
+    let '(b1, m) := grow_for_write (set_last b 0%Z) 4 in                                 (* utf8.UTFMax *)
+    let enc := encode_rune r in
+    (write_at b1 m enc, (st_ok, [zn (length enc)])).
+(* the code after commit 6078bb8: `if uint32(r) < utf8.RuneSelf` *)
+Definition rune_is_byte (r : Z) : bool := (uint32 r <? 128)%Z.
+(* the code before it: `if r < utf8.RuneSelf`, a signed comparison (kept for write_rune_signed_refuted) *)
+Definition rune_is_byte_signed (r : Z) : bool := (r <? 128)%Z.
+
+Definition step_gen (is_byte : Z -> bool) (b : buf) (o : op) : buf * obs :=
   match o with
-  | Write p => let '(b1, m) := grow_for_write (set_last b 0%Z) (length p) in (write_at b1 m p, tag (Z.of_nat (length p)) [])
-  | WriteByte c => let '(b1, m) := grow_for_write (set_last b 0%Z) 1 in (write_at b1 m [c], tag 0%Z [])
+  | Write p | WriteString p =>
+      let '(b1, m) := grow_for_write (set_last b 0%Z) (length p) in (write_at b1 m p, (st_ok, [zn (length p)]))
+  | WriteByte c =>
+      let '(b1, m) := grow_for_write (set_last b 0%Z) 1 in (write_at b1 m [c], (st_ok, []))
+  | WriteRune r => write_rune is_byte b r
   | Read n =>
       let b := set_last b 0%Z in
-      if Nat.eqb (blen b) 0 then (reset b, tag (if Nat.eqb n 0 then 0%Z else 901%Z) [])     (* 901 = io.EOF *)
+      if Nat.eqb (blen b) 0 then (reset b, (if Nat.eqb n 0 then st_ok else st_eof, [0%Z]))
       else let k := Nat.min n (blen b) in
-           (set_off b (off b + k) (if Nat.eqb k 0 then 0%Z else (-1)%Z), tag (Z.of_nat k) (firstn k (live b)))
+           (set_off b (off b + k) (if Nat.eqb k 0 then 0%Z else (-1)%Z), (st_ok, zn k :: firstn k (live b)))
   | ReadByte =>
-      if Nat.eqb (blen b) 0 then (reset b, tag 901%Z [])
-      else (set_off b (S (off b)) (-1)%Z, tag 0%Z (firstn 1 (live b)))
-  | Next n =>
-      if (n <? 0)%Z then (set_last b 0%Z, tag 900%Z [])
-      else let k := Nat.min (Z.to_nat n) (blen b) in
-           (set_off b (off b + k) (if Nat.eqb k 0 then 0%Z else (-1)%Z), tag 0%Z (firstn k (live b)))
+      if Nat.eqb (blen b) 0 then (reset b, (st_eof, [0%Z]))
+      else (set_off b (S (off b)) (-1)%Z, (st_ok, firstn 1 (live b)))
+  | ReadRune =>
+      if Nat.eqb (blen b) 0 then (reset b, (st_eof, [0%Z; 0%Z]))
+      else
+        let c := hd 0%Z (live b) in
+        if (c <? 128)%Z then (set_off b (S (off b)) 1%Z, (st_ok, [c; 1%Z]))
+        else let '(r, n) := decode_rune (live b) in
+             (set_off b (off b + n) (zn n), (st_ok, [r; zn n]))
   | UnreadByte =>
-      if (lastr b =? 0)%Z then (b, tag 902%Z [])                                          (* 902 = error *)
-      else (set_off b (if Nat.eqb (off b) 0 then 0 else off b - 1) 0%Z, tag 0%Z [])
+      if (lastr b =? 0)%Z then (b, (st_unread, []))
+      else (set_off b (if Nat.eqb (off b) 0 then 0 else off b - 1) 0%Z, (st_ok, []))
+  | UnreadRune =>
+      if (lastr b <=? 0)%Z then (b, (st_unread, []))
+      else (set_off b (if (lastr b <=? zn (off b))%Z then off b - Z.to_nat (lastr b) else off b) 0%Z, (st_ok, []))
+  | Next n =>
+      if (n <? 0)%Z then (set_last b 0%Z, (st_panic, []))
+      else let k := Nat.min (Z.to_nat n) (blen b) in
+           (set_off b (off b + k) (if Nat.eqb k 0 then 0%Z else (-1)%Z), (st_ok, firstn k (live b)))
   | Truncate n =>
-      if (n =? 0)%Z then (reset b, tag 0%Z [])
-      else if (n <? 0)%Z || (Z.of_nat (blen b) <? n)%Z then (set_last b 0%Z, tag 900%Z [])
-      else ({| bytes := firstn (off b + Z.to_nat n) (bytes b); off := off b; lastr := 0%Z; cap := cap b; isnil := isnil b |}, tag 0%Z [])
-  | Reset => (reset b, tag 0%Z [])
+      if (n =? 0)%Z then (reset b, (st_ok, []))
+      else if (n <? 0)%Z || (zn (blen b) <? n)%Z then (set_last b 0%Z, (st_panic, []))
+      else ({| bytes := firstn (off b + Z.to_nat n) (bytes b); off := off b; lastr := 0%Z; cap := cap b; isnil := isnil b |}, (st_ok, []))
+  | Reset => (reset b, (st_ok, []))
   | Grow n =>
-      if (n <? 0)%Z then (b, tag 900%Z [])
-      else let '(b1, m) := grow b (Z.to_nat n) in
-           ({| bytes := firstn m (bytes b1); off := off b1; lastr := lastr b1; cap := cap b1; isnil := isnil b1 |}, tag 0%Z [])
+      if (n <? 0)%Z then (b, (st_panic, []))
+      else let '(b1, m) := grow b (Z.to_nat n) in (set_bytes b1 (firstn m (bytes b1)), (st_ok, []))
+  | ReadFrom sc => read_from (set_last b 0%Z) sc 0%Z
+  | WriteTo m e =>
+      let b := set_last b 0%Z in
+      let nb := blen b in
+      if Nat.eqb nb 0 then (reset b, (st_ok, [0%Z]))                                       (* the writer is not called *)
+      else if (zn nb <? m)%Z then (b, (st_panic, (-1)%Z :: live b))                         (* invalid Write count *)
+      else
+        let b' := set_off b (off b + Z.to_nat m) 0%Z in
+        if negb (e =? 0)%Z then (b', (st_user e, m :: live b))
+        else if negb (m =? zn nb)%Z then (b', (st_short, m :: live b))
+        else (reset b', (st_ok, m :: live b))
+  | OLen => (b, (st_ok, [zn (blen b)]))
+  | OBytes | OString => (b, (st_ok, live b))
+  | OCap => (b, (st_ok, []))                                                               (* Cap() is not compared *)
+  | ReWrite pos p =>
+      match rewrite_at (bytes b) pos p with
+      | Done l => (set_bytes b l, (st_ok, []))
+      | Panic => (b, (st_panic, []))
+      end
   end.
+
+Definition step := step_gen rune_is_byte.
+Definition step_prefix := step_gen rune_is_byte_signed.      (* tex.Buffer before commit 6078bb8 *)
 
 Definition zero_buf := {| bytes := []; off := 0; lastr := 0%Z; cap := 0; isnil := true |}.
-Definition new_buf (data : list Z) (nil : bool) := {| bytes := data; off := 0; lastr := 0%Z; cap := length data; isnil := nil |}.
+Definition new_buf (data : list Z) (c : nat) (nl : bool) := {| bytes := data; off := 0; lastr := 0%Z; cap := c; isnil := nl |}.
 
-(* a case: initial data (None = zero value), then steps with the observed (obs, Len, Cap, Bytes) *)
-Definition seen := (obs * (nat * nat * list Z))%type.
-Fixpoint list_eqb (x y : list Z) : bool := match x, y with [], [] => true | a :: x', b :: y' => (a =? b)%Z && list_eqb x' y' | _, _ => false end.
-Definition seen_eqb (a b : seen) : bool :=
-  let '((t1, d1), (l1, c1, y1)) := a in let '((t2, d2), (l2, c2, y2)) := b in
-  (t1 =? t2)%Z && list_eqb d1 d2 && Nat.eqb l1 l2 && Nat.eqb c1 c2 && list_eqb y1 y2.
-Fixpoint check (b : buf) (l : list (op * seen)) (i : nat) : option nat :=
-  match l with
-  | [] => None
-  | (o, s) :: r => let '(b', ob) := step b o in
-                   if seen_eqb (ob, (blen b', cap b', live b')) s then check b' r (S i) else Some i
+(* how a buffer comes into being.  The capacity a constructor ends up with is read off the implementation
+   (Cap() right after construction) and fed to the model as an input: it is decided by the Go runtime
+   (size classes of []byte(s)), and only its lower bound is part of the property (NewSizedBuffer). *)
+Inductive init :=
+  | IZero                                               (* var b tex.Buffer *)
+  | INew (data : list Z) (c : nat) (nl : bool)          (* NewBuffer(s) with len(s) = |data|, cap(s) = c, s == nil iff nl *)
+  | INewString (data : list Z) (c : nat) (nl : bool)    (* NewBufferString; c = Cap(), nl = (Bytes() == nil) as observed *)
+  | INewSized (size : Z) (c : option nat).              (* NewSizedBuffer(size); None = it panicked *)
+
+Definition init_panics (i : init) : bool := match i with INewSized size _ => (size <? 0)%Z | _ => false end.
+Definition init_panicked (i : init) : bool := match i with INewSized _ None => true | _ => false end.
+Definition init_wf (i : init) : bool :=
+  match i with
+  | IZero => true
+  | INew data c nl => Nat.leb (length data) c && (negb nl || (Nat.eqb (length data) 0 && Nat.eqb c 0))
+  | INewString data c nl => Nat.leb (length data) c && (negb nl || (Nat.eqb (length data) 0 && Nat.eqb c 0))
+  | INewSized size _ => true
   end.
+Definition init_buf (i : init) : buf :=
+  match i with
+  | IZero => zero_buf
+  | INew data c nl => new_buf data c nl
+  | INewString data c nl => new_buf data c nl
+  | INewSized _ (Some c) => new_buf [] c false
+  | INewSized _ None => zero_buf
+  end.
+Definition init_data (i : init) : list Z :=
+  match i with INew data _ _ | INewString data _ _ => data | _ => [] end.
+
+(* what a caller sees after each call: the result, Len() and Bytes() *)
+Definition view := (obs * (nat * list Z))%type.
+Fixpoint run_gen (is_byte : Z -> bool) (b : buf) (l : list op) : list view :=
+  match l with [] => [] | o :: r => let '(b', ob) := step_gen is_byte b o in (ob, (blen b', live b')) :: run_gen is_byte b' r end.
+Definition run := run_gen rune_is_byte.
